@@ -10,6 +10,9 @@ use crate::{model::*, pipe, report::*, rustc_oracle::*, spaces::*, spec::*, util
 /// The auxiliary definitions have the sizes the model's environment assumes.
 const AUX_ASSERTS: &str = "const _: () = assert!(core::mem::size_of::<Inner4>() == 4 && core::mem::align_of::<Inner4>() == 4 && core::mem::size_of::<Inner16>() == 16 && core::mem::align_of::<Inner16>() == 8 && core::mem::size_of::<Ext12>() == 12 && core::mem::align_of::<Ext12>() == 4 && core::mem::size_of::<En16>() == 2 && core::mem::align_of::<En16>() == 2 && core::mem::size_of::<InnerV>() == 2 * core::mem::size_of::<usize>() && core::mem::align_of::<InnerV>() == core::mem::size_of::<usize>() && core::mem::size_of::<Empty8>() == 0 && core::mem::align_of::<Empty8>() == 8);\n";
 
+/// number of descriptions explored (and whose accepted outputs are compiled) at a time
+const CHUNK: usize = 2_000_000;
+
 pub struct Accepted {
     pub index: usize,
     pub ps: usize,
@@ -19,12 +22,8 @@ pub struct Accepted {
 }
 
 /// Runs pyxis over the whole space at width `ps`; returns the accepted cases and counts.
-pub fn explore(space: &LayoutSpace, ps: usize, rep: &mut Report, only: Option<usize>) -> Vec<Accepted> {
-    let n = space.len();
-    let idxs: Vec<usize> = match only {
-        Some(i) => vec![i],
-        None => (0..n).collect(),
-    };
+pub fn explore(space: &LayoutSpace, ps: usize, rep: &mut Report, range: std::ops::Range<usize>) -> Vec<Accepted> {
+    let idxs: Vec<usize> = range.collect();
     let outs = util::par_map(idxs.len(), |j, _| {
         let i = idxs[j];
         let case = space.get(i, ps as u64);
@@ -214,14 +213,22 @@ pub fn run(prop: &str, tier: &str, only: Option<&Value>) -> i32 {
             rep.machinery(format!("{e:#}"));
             return rep.finish();
         }
+        // the space is processed in chunks so that the accepted cases of a large (thorough) space
+        // never have to be held in memory at once
+        let chunks: Vec<std::ops::Range<usize>> = match only_idx {
+            Some((i, _)) => vec![i..i + 1],
+            None => (0..space.len()).step_by(CHUNK).map(|lo| lo..(lo + CHUNK).min(space.len())).collect(),
+        };
+        let mut sampled = 0;
+        for chunk in chunks {
         let t0 = std::time::Instant::now();
-        let accepted = explore(&space, ps, &mut rep, only_idx.map(|x| x.0));
+        let accepted = explore(&space, ps, &mut rep, chunk);
         rep.count("ms_explore", t0.elapsed().as_millis() as u64);
         let t0 = std::time::Instant::now();
         // build compile cases, de-duplicated by full text
         let mut by_text: BTreeMap<u64, usize> = BTreeMap::new();
         let mut cases: Vec<RCase> = vec![];
-        let mut owners: Vec<Vec<usize>> = vec![];
+        let mut owners: Vec<Vec<(usize, Vec<String>)>> = vec![];
         let mut labels: Vec<Vec<(String, String)>> = vec![];
         for (ai, a) in accepted.iter().enumerate() {
             let asserts = if prop == "C01" { c01_asserts(a, &space.env) } else { c02_asserts(a) };
@@ -237,7 +244,7 @@ pub fn run(prop: &str, tier: &str, only: Option<&Value>) -> i32 {
                 });
                 continue;
             };
-            text.push_str(&appendix(&asserts));
+            // cases with the same emitted text are compiled once, with the union of their asserts
             let h = util::fnv(text);
             let mut shared = BTreeMap::new();
             if let Some(mut aux) = files.remove("aux.rs") {
@@ -247,14 +254,24 @@ pub fn run(prop: &str, tier: &str, only: Option<&Value>) -> i32 {
                 shared.insert("aux.rs".to_string(), aux);
             }
             match by_text.get(&h) {
-                Some(ci) => owners[*ci].push(ai),
+                Some(ci) => {
+                    owners[*ci].push((ai, asserts.iter().map(|a| a.0.clone()).collect()));
+                    for a in asserts {
+                        if !labels[*ci].contains(&a) {
+                            labels[*ci].push(a);
+                        }
+                    }
+                }
                 None => {
                     by_text.insert(h, cases.len());
                     cases.push(RCase { files, prelude: String::new(), shared });
-                    owners.push(vec![ai]);
+                    owners.push(vec![(ai, asserts.iter().map(|a| a.0.clone()).collect())]);
                     labels.push(asserts);
                 }
             }
+        }
+        for (ci, c) in cases.iter_mut().enumerate() {
+            c.files.get_mut("m.rs").unwrap().push_str(&appendix(&labels[ci]));
         }
         rep.count(&format!("compiled_distinct_ps{ps}"), cases.len() as u64);
         for c in &cases {
@@ -274,9 +291,16 @@ pub fn run(prop: &str, tier: &str, only: Option<&Value>) -> i32 {
             if ds.is_empty() {
                 continue;
             }
-            for &ai in &owners[ci] {
-                let a = &accepted[ai];
-                let d = &ds[0];
+            for (ai, own_labels) in &owners[ci] {
+                let a = &accepted[*ai];
+                // the first diagnostic that concerns this description: an assert it contributed,
+                // or a plain compile error
+                let Some(d) = ds.iter().find(|d| match d.rendered.split("@@").nth(1) {
+                    Some(l) => own_labels.iter().any(|x| x == l),
+                    None => true,
+                }) else {
+                    continue;
+                };
                 let label = d
                     .rendered
                     .split("@@")
@@ -319,6 +343,18 @@ pub fn run(prop: &str, tier: &str, only: Option<&Value>) -> i32 {
                 });
             }
         }
+        if sampled < 3 {
+            if let Some(a) = accepted.get(accepted.len() / 2) {
+                sampled += 1;
+                rep.sample(json!({"ps": ps, "index": a.index, "input": a.input.render(), "asserts": if prop == "C01" { c01_asserts(a, &space.env) } else { c02_asserts(a) }.iter().map(|x| x.1.clone()).collect::<Vec<_>>() }));
+            }
+        }
+        if only_idx.is_some() {
+            for a in &accepted {
+                println!("{}", a.input.render());
+            }
+        }
+        } // chunks
         if prop == "C02" && only_idx.is_none() {
             // composition / extern grid / empty / vftable spaces
             let extras = c02_extra_inputs();
@@ -371,14 +407,8 @@ pub fn run(prop: &str, tier: &str, only: Option<&Value>) -> i32 {
                 }
             }
         }
-        for a in accepted.iter().step_by((accepted.len() / 3).max(1)).take(3) {
-            rep.sample(json!({"ps": ps, "index": a.index, "input": a.input.render(), "asserts": if prop == "C01" { c01_asserts(a, &space.env) } else { c02_asserts(a) }.iter().map(|x| x.1.clone()).collect::<Vec<_>>() }));
-        }
         if only_idx.is_some() {
             let failed = !rep.violations.is_empty();
-            for a in &accepted {
-                println!("{}", a.input.render());
-            }
             println!("replay: {}", if failed { "still failing" } else { "passes" });
             for v in &rep.violations {
                 println!("{}", v.detail);
